@@ -1573,8 +1573,8 @@ def c08(run):
            "countries in varying order; for every country with positions: components are read off nationally "
            "valid IBANs and the BBAN is rebuilt and compared outside filler positions; non-trivial = distinct IBAN",
       note="compute -> validate proved per algorithm; build_validates / generate_passes_national prove the "
-           "end-to-end agreement for the 19 countries (live tables, every registry naming no method); random "
-           "draws and parse -> rebuild are checked dynamically")
+           "end-to-end agreement for the 19 countries and `rebuild` proves parse -> rebuild (live tables, every "
+           "registry naming no method); random draws are checked dynamically")
 def c09(run):
     import natref
     from random import Random
